@@ -291,7 +291,51 @@ def h11_redis_window(S):
             info=f"{n_foreign} foreign message(s) in front (fetch window {window}): service A executed {ran}")
 
 
+def h11_busy_neighbour(S):
+    """Another service has long-running jobs of its own in flight on the shared queue: that never blocks this worker's jobs."""
+    from repid import Job, Router, Worker
+    from repid.converter import BasicConverter
+
+    limit_a = S.pick("tasks_limit_of_this_worker", 2) + 1
+    in_flight_b = S.pick("foreign_jobs_in_flight", 3) + 1
+    ran = []
+
+    async def main(loop):
+        w = World()
+        await w.open(queues=("shared",), record=False)
+        ra, rb = Router(), Router()
+
+        @ra.actor(name="ping", queue="shared", converter=BasicConverter)
+        async def a_ping(i: int):
+            ran.append(i)
+
+        @rb.actor(name="report", queue="shared", converter=BasicConverter)
+        async def b_report(i: int):
+            await asyncio.sleep(1)
+
+        for i in range(in_flight_b):
+            await Job("report", queue="shared", args={"i": i}, id_=f"f{i}", _connection=w.conn).enqueue()
+        wb = Worker(routers=[rb], handle_signals=[], _connection=w.conn, graceful_shutdown_time=0.01, tasks_limit=5)
+        tb = asyncio.create_task(wb.run())
+        await asyncio.sleep(Fraction(1, 50))
+        await Job("ping", queue="shared", args={"i": 7}, id_="p1", _connection=w.conn).enqueue()
+        wa = Worker(routers=[ra], handle_signals=[], _connection=w.conn, graceful_shutdown_time=0.01, tasks_limit=limit_a)
+        ta = asyncio.create_task(wa.run())
+        await asyncio.sleep(Fraction(1, 10))
+        for t in (ta, tb):
+            t.cancel()
+        await asyncio.gather(ta, tb, return_exceptions=True)
+
+    run_async(main)
+    S.cover("busy-neighbour")
+    S.check("own-job-is-not-blocked-by-foreign-messages", ran == [7],
+            info=f"{in_flight_b} foreign job(s) in flight at another worker, this worker's tasks_limit={limit_a}: executed {ran}")
+
+
 HARNESSES = [
+    Harness(name="H11-busy-neighbour", scenario=h11_busy_neighbour,
+            bounds={"foreign jobs in flight at another worker": "1..3 (1 s each)", "this worker's tasks_limit": "1 or 2"},
+            functions=["connections/in_memory/consumer.py:_InMemoryConsumer.consume", "worker.py:Worker.run"], covers=["busy-neighbour"]),
     Harness(name="H11-redis-window", scenario=h11_redis_window, workers=8,
             bounds={"fetch window": "2 names per round trip (PREFETCH_AMOUNT set by the harness; the code is window-size generic)",
                     "foreign messages in front of the own job": "1..5 (less than, exactly, and more than whole windows)", "category": "normal list or due-delayed set"},
